@@ -38,6 +38,8 @@ func runConfine(r *run) error {
 			{Path: "dest/linkabs", Type: "l", Link: outside},
 			{Path: "dest/sub", Type: "d", Mode: 0o755, Mtime: victimMtime},
 			{Path: "dest/sub/up", Type: "l", Link: "../../outside"},
+			{Path: "dest/hop", Type: "l", Link: "../outside"},
+			{Path: "dest/chain", Type: "l", Link: "hop/"},
 			{Path: "dest/ordinary", Type: "f", Data: []byte("ordinary"), Mode: 0o644, Mtime: victimMtime},
 			{Path: "dest", Type: "d", Mode: 0o755, Mtime: victimMtime},
 		}
@@ -78,6 +80,10 @@ func runConfine(r *run) error {
 		{name: "nested-existing-symlink-trailing-slash", prefix: func(string) string { return "sub/up/" }, pre: []hEntry{dirE("sub")}, bare: "sub/up/"},
 		{name: "symlink-in-same-list-trailing-slash", prefix: func(string) string { return "newlink/" }, bare: "newlink/",
 			pre: []hEntry{{NameHex: hx("newlink"), Mode: sIFLNK | 0o777, Mtime: victimMtime, LinkHex: hx("../outside")}}},
+		{name: "existing-chain-trailing-slash-target", prefix: func(string) string { return "chain/" }},
+		{name: "same-list-chain-trailing-slash-target", prefix: func(string) string { return "nchain/" },
+			pre: []hEntry{{NameHex: hx("nhop"), Mode: sIFLNK | 0o777, Mtime: victimMtime, LinkHex: hx("../outside")}, {NameHex: hx("nchain"), Mode: sIFLNK | 0o777, Mtime: victimMtime, LinkHex: hx("nhop/")}}},
+		{name: "daemon-subdir-chain", prefix: func(string) string { return "" }, subdir: "chain"},
 		{name: "daemon-subdir-symlink", prefix: func(string) string { return "" }, subdir: "link"},
 		{name: "daemon-subdir-symlink-slash", prefix: func(string) string { return "" }, subdir: "link/"},
 		{name: "daemon-subdir-dotdot", prefix: func(string) string { return "" }, subdir: "../outside"},
